@@ -52,6 +52,8 @@ def make_case(lean, d, kind, structs, rng):
             return v % 2
         if ty in ('nat', 'int') and catk:
             return v % catk
+        if ty == 'bool' and catk is not None and catk < 2:
+            return False
         if isinstance(ty, tuple) and ty[0] == 'list' and isinstance(v, list):
             return [fix(x, ty[1]) for x in v]
         if isinstance(ty, tuple) and ty[0] == 'dos' and v[0] == 'D':
